@@ -458,6 +458,46 @@ def main(out_path: str):
     if not isinstance(_rd, dict):
         raise SystemExit("translator: cannot read the range defaults of process_range_question_type")
     parts.append(dict_ss("rangeDefaults", _rd, "xls2json.process_range_question_type: defaults"))
+    # C06: literals of the text channels that the Lean model (Model/Channel.lean) writes out by hand
+    def _c06_literals():
+        import textwrap as _tw
+
+        import pyxform.parsing.instance_expression as _ie
+        import pyxform.survey as _sv
+
+        out = {}
+        # f"""<output value="{…}" />""" in Survey._var_repl_output_function: the constant pieces around the value
+        fn = ast.parse(_tw.dedent(inspect.getsource(_sv.Survey._var_repl_output_function))).body[0]
+        for n in ast.walk(fn):
+            if isinstance(n, ast.JoinedStr):
+                consts = [v.value for v in n.values if isinstance(v, ast.Constant)]
+                holes = [v for v in n.values if isinstance(v, ast.FormattedValue)]
+                if len(holes) == 1 and len(consts) == 2:
+                    out["output_markup_prefix"], out["output_markup_suffix"] = consts
+        # f" {last_saved_prefix}{xpath} " and f"instance('{LAST_SAVED_INSTANCE_NAME}')" in _var_repl_function
+        out["last_saved_instance_name"] = utils.LAST_SAVED_INSTANCE_NAME
+        src = inspect.getsource(_sv.Survey._var_repl_function)
+        out["last_saved_prefix_template_present"] = str("f\"instance('{LAST_SAVED_INSTANCE_NAME}')\"" in src)
+        out["var_repl_return_template_present"] = str('f" {last_saved_prefix}{self._xpath[name].get_xpath()} "' in src)
+        # replace_with_output: `if 9 >= len(xml_text)`; find_boundaries: t.value == "instance("
+        rw = ast.parse(_tw.dedent(inspect.getsource(_ie.replace_with_output))).body[0]
+        for n in ast.walk(rw):
+            if isinstance(n, ast.Compare) and isinstance(n.left, ast.Constant) and isinstance(n.left.value, int):
+                out["replace_min_length"] = str(n.left.value)
+        fb = ast.parse(_tw.dedent(inspect.getsource(_ie.find_boundaries))).body[0]
+        calls = sorted({n.value for n in ast.walk(fb) if isinstance(n, ast.Constant) and isinstance(n.value, str) and n.value.endswith("(")})
+        out["instance_call_literals"] = "|".join(calls)
+        # insert_output_values: the placeholder that is passed through untouched
+        io = ast.parse(_tw.dedent(inspect.getsource(_sv.Survey.insert_output_values))).body[0]
+        for n in ast.walk(io):
+            if isinstance(n, ast.Compare) and isinstance(n.left, ast.Name) and n.left.id == "text" and isinstance(n.comparators[0], ast.Constant):
+                out["insert_output_values_passthrough"] = n.comparators[0].value
+        return out
+
+    try:
+        parts.append(dict_ss("c06Literals", _c06_literals(), "C06: literals of insert_output_values / _var_repl_* / instance_expression (Model/Channel.lean)"))
+    except Exception as e:  # noqa: BLE001
+        raise SystemExit(f"translator: cannot read the C06 literals: {e}")
     parts.append("end Pyxv.Gen\n")
     # several slices may ask for the same table: keep the first definition of each name
     seen, uniq = set(), []
